@@ -39,6 +39,7 @@ type Obl struct {
 	Hyp    string
 	Goal   string
 	SkGoal string
+	Code   string
 	NDefs  int
 	Where  string
 	Text   string
@@ -98,6 +99,15 @@ type Gen struct {
 	stableFV   map[*ssa.FreeVar]bool
 	cloBind    map[string]ssa.Value
 	stableLoc  map[*ssa.Alloc]bool
+	curStore   *storeRec
+	curCode    string
+	storeRecs  map[*ssa.BasicBlock]map[string][]storeRec // precise single-location stores per block and heap
+	imprecise  map[*ssa.BasicBlock]map[string]bool
+}
+
+type storeRec struct {
+	base    string
+	baseVal ssa.Value
 }
 
 type deferRec struct {
@@ -311,7 +321,25 @@ func (g *Gen) svIn(st State, name, srt string) string {
 	return name + "!0"
 }
 
+func (g *Gen) noteWrite(name string) {
+	if g.curBlock == nil {
+		return
+	}
+	if g.curStore != nil && g.curStore.base != "" {
+		if g.storeRecs[g.curBlock] == nil {
+			g.storeRecs[g.curBlock] = map[string][]storeRec{}
+		}
+		g.storeRecs[g.curBlock][name] = append(g.storeRecs[g.curBlock][name], *g.curStore)
+		return
+	}
+	if g.imprecise[g.curBlock] == nil {
+		g.imprecise[g.curBlock] = map[string]bool{}
+	}
+	g.imprecise[g.curBlock][name] = true
+}
+
 func (g *Gen) setSV(name, srt, term string) {
+	g.noteWrite(name)
 	g.sv(name, srt)
 	nv := g.newConst(name, g.svSort[name])
 	g.assumeRaw(fmt.Sprintf("(= %s %s)", nv, term))
@@ -319,6 +347,7 @@ func (g *Gen) setSV(name, srt, term string) {
 }
 
 func (g *Gen) havocSV(name, srt string) string {
+	g.noteWrite(name)
 	g.sv(name, srt)
 	nv := g.newConst(name, g.svSort[name])
 	g.cur[name] = nv
@@ -746,7 +775,7 @@ func (g *Gen) oblige(kind, label, goal, where, text string, props []string) {
 	if len(props) == 0 && g.con != nil {
 		props = g.con.Props
 	}
-	g.obls = append(g.obls, &Obl{Name: name, Kind: kind, Label: label, Props: props, Hyp: g.curReach, Goal: goal, SkGoal: g.skolemizeGoal(goal), NDefs: len(g.defs), Where: where, Text: text, Fn: g.name})
+	g.obls = append(g.obls, &Obl{Name: name, Kind: kind, Label: label, Props: props, Hyp: g.curReach, Goal: goal, SkGoal: g.skolemizeGoal(goal), NDefs: len(g.defs), Where: where, Text: text, Fn: g.name, Code: g.curCode})
 	g.assume(goal)
 }
 
